@@ -11,7 +11,7 @@ from harness import detloop, engine, enginegen
 class EngineProp(Prop):
     profiles = ['legal']
     lean_modules = []
-    n_quick = 400
+    n_quick = 2500
     n_thorough = 60000
     length = (6, 30)
 
